@@ -187,7 +187,7 @@ func plan(sc *Scenario, v Variant) (writes []write, msgs [][]byte) {
 			cur = len(msgs) - 1
 		case "ExplicitPartial", "SendWhole", "AppWrite", "MsgPut":
 			seed := uint64(v.Salt)<<32 ^ uint64(cur+1)<<20 ^ uint64(i)
-			if c.Kind == "string" {
+			if c.Kind == "string" || c.Kind == "stringbytes" {
 				content := make([]byte, c.N)
 				fill(content, seed)
 				for j := range content {
@@ -258,6 +258,15 @@ func sizeClass(n int) string {
 	default:
 		return "len>Max"
 	}
+}
+
+// putClass: the argument class of a refused typed call; a refused flush
+// (FlushFrame / FinishMessage) concerns the pending frame, not an argument.
+func putClass(c Call) string {
+	if c.Kind == "" {
+		return "pending-frame"
+	}
+	return c.Kind + ":" + sizeClass(c.N)
 }
 
 func diffAt(a, b []byte) string {
@@ -342,6 +351,8 @@ func runSender(sc *Scenario, v Variant, writes []write, stt *Stats) (*sendResult
 		case "MsgPut":
 			if c.Kind == "string" {
 				err = m.PutString(bg, string(writes[i].content))
+			} else if c.Kind == "stringbytes" {
+				err = m.PutStringBytes(bg, writes[i].content)
 			} else {
 				err = m.PutBytes(bg, writes[i].data)
 			}
@@ -360,7 +371,7 @@ func runSender(sc *Scenario, v Variant, writes []write, stt *Stats) (*sendResult
 			if sc.Sapi == "typed" {
 				res.raw = conn.TakeOut()
 				return res, &Diff{Invariant: "TypedLayerTotal", Action: c.A, Layer: "typed", Mode: mode(sc.Enc),
-					Class: c.Kind + ":" + sizeClass(c.N), Pass: "A",
+					Class: putClass(c), Pass: "A",
 					Detail: fmt.Sprintf("typed layer refused %s of %d bytes (call %d): %v", c.A, c.N, i, err)}
 			}
 			res.strict = true
